@@ -141,7 +141,9 @@ def sensitivity(only=None, count=None):
                         break
                 if not found:
                     D.say("mutant %-42s NOT caught by %s" % (m["name"], prop))
-            if not caught_by:
+            if not caught_by and m.get("not_caught_by_design"):
+                D.say("mutant %-42s not caught, as recorded: %s" % (m["name"], m["not_caught_by_design"][:160]))
+            elif not caught_by:
                 missed += 1
             results.append((m["name"], caught_by))
         finally:
